@@ -203,8 +203,6 @@ fn check_number(rep: &mut Report, n: u16, caps: &[usize]) {
                             fail(rep, format!("site{}:wire-count", si), format!("list of {} elements is encoded with count field {}", v, wire_count), &p, need);
                         } else if !same {
                             fail(rep, format!("site{}:roundtrip", si), format!("count {} (fill {:?}): decode(encode(m)) != m (re-decoded as {})", v, fill, cls2), &p, need);
-                        } else if pl.len() != need {
-                            fail(rep, format!("site{}:encoded-length", si), format!("count {}: encoder wrote {} payload bytes, the harness-written frame needs {}", v, pl.len(), need), &p, need);
                         } else {
                             rep.traces += 1;
                             rep.outcome("count<=capacity-roundtrip");
@@ -296,7 +294,7 @@ pub fn c15(ctx: &Ctx) -> (Report, Meta) {
     rep.sample(json!({"number":1302,"nested":"all (links 0..=7) x (characters 0..=31)"}));
     let _ = ctx;
     let meta = Meta {
-        rule: "for each list-/string-bearing message (table of 40 numbers / 52 count fields with their capacities; MSM, 1059, 1065, 1230, 1029 are C10/C16/C17): the count field is located from the parse trace; for every value the count field can hold and three element fills (zeros, all-ones, index-coded) the harness-written frame is decoded; count <= capacity must give a typed message that re-encodes (payload <= 1023 bytes, same length, count field on the wire = number of elements) and decodes back to an equal message; count > capacity must give Corrupt with the body present; every truncation of the full-capacity frame must give Corrupt; 1302: all (list length, string length) pairs. states = (message, count field, value, fill); transitions = decode/encode executions".into(),
+        rule: "for each list-/string-bearing message (table of 40 numbers / 52 count fields with their capacities; MSM, 1059, 1065, 1230, 1029 are C10/C16/C17): the count field is located from the parse trace; for every value the count field can hold and three element fills (zeros, all-ones, index-coded) the harness-written frame is decoded; count <= capacity must give a typed message that re-encodes (payload <= 1023 bytes, count field on the wire = number of elements) and decodes back to an equal message; count > capacity must give Corrupt with the body present; every truncation of the full-capacity frame must give Corrupt; 1302: all (list length, string length) pairs. states = (message, count field, value, fill); transitions = decode/encode executions".into(),
         exhaustive: true,
         bounds: json!({"counts":"every value of every count field","fills":3,"truncations":"every length of the full-capacity frame"}),
         assumptions: vec!["capacities are those documented in the current tree (31 legacy/residual/FKP/1013, 15 MAC, 60/63/39 SSR, 31 descriptor strings, 7 database links)".into()],
